@@ -1,5 +1,5 @@
 import SqlframeModel.Codec.Basic
-import SqlframeModel.Impl.C18Session
+import SqlframeModel.Impl.C18Columns
 namespace Sqlframe.Sess
 open Lean Sqlframe
 deriving instance FromJson, ToJson for Cte
@@ -7,4 +7,9 @@ deriving instance FromJson, ToJson for CteO
 deriving instance FromJson, ToJson for Step
 deriving instance FromJson, ToJson for Ev
 deriving instance FromJson, ToJson for TCte
+deriving instance FromJson, ToJson for Ref
+deriving instance FromJson, ToJson for NormPath
+deriving instance FromJson, ToJson for Accessor
+deriving instance FromJson, ToJson for Site
+deriving instance FromJson, ToJson for CEv
 end Sqlframe.Sess
